@@ -60,6 +60,7 @@ func (s *memStore) decode(data []byte, out runtime.Object, rev int64) error {
 func (s *memStore) Reset() {
 	s.mu.Lock()
 	s.data = map[string]memEntry{}
+	s.rev = 100
 	s.mu.Unlock()
 }
 
